@@ -1,7 +1,1006 @@
-//! C13 — not implemented yet (stub).
-use crate::engine::Args;
+//! C13 — backends see the client's request plus truthful, unspoofable proxy metadata (DESIGN §4 C13).
+//!
+//! Wire lab, HTTP/1.1 client -> HTTP/1.1 backend through a live worker's plain HTTP listeners
+//! (`lab::hdrlab`): five listeners with different header settings, three clusters (plain, sticky,
+//! per-frontend header edits), byte-exact peers. HTTP/2, TLS (and so HSTS) are out of scope here.
 
-pub fn run(_args: &Args) -> i32 {
-    println!("INCONCLUSIVE: C13 has no check yet");
-    2
+use std::{
+    cell::RefCell,
+    collections::{BTreeMap, BTreeSet},
+    io::Write,
+    net::{IpAddr, Ipv4Addr, Ipv6Addr, SocketAddr},
+    time::{Duration, Instant},
+};
+
+use proptest::prelude::*;
+use serde::{Deserialize, Serialize};
+
+use crate::{
+    engine::{self, Args, CaseReport, CheckResult, Evidence, Failure, Stats, pick_idx},
+    lab::{
+        self, LabConfig,
+        hdrlab::{self, CLUSTERS, EDIT_CLUSTER, Fields, HdrLab, LISTENERS, ListenerCfg, RawConn, RawMsg, RawOut, RespPlan, lossy, show_fields},
+    },
+};
+
+// ------------------------------------------------------------------ case
+
+#[derive(Clone, Debug, Serialize, Deserialize, PartialEq)]
+pub enum Src {
+    /// connect from 127.a.b.c
+    Direct { ip: [u8; 3] },
+    ProxyV4 { src: [u8; 4], sport: u16, dst: [u8; 4], dport: u16 },
+    ProxyV6 { src: [u8; 16], sport: u16, dst: [u8; 16], dport: u16 },
+}
+
+/// Field values are strings of chars U+0000..U+00FF, one char = one byte on the wire.
+pub type Hdr = (String, String);
+
+#[derive(Clone, Debug, Serialize, Deserialize)]
+pub struct Resp {
+    pub status: u16,
+    pub headers: Vec<Hdr>,
+    pub body_len: u16,
+    pub chunked: bool,
+}
+
+#[derive(Clone, Debug, Serialize, Deserialize)]
+pub struct Req {
+    pub cluster: u8,
+    pub method: String,
+    pub target: String,
+    pub headers: Vec<Hdr>,
+    pub body_len: u16,
+    pub chunked: bool,
+    pub trailers: Vec<Hdr>,
+    /// write the request in two pieces, split at this offset
+    pub split: Option<u16>,
+    pub resp: Resp,
+}
+
+#[derive(Clone, Debug, Serialize, Deserialize)]
+pub struct Case {
+    pub listener: u8,
+    pub src: Src,
+    pub reqs: Vec<Req>,
+    /// Known finding excluded by construction unless `strict` (regression files only):
+    /// * a trailer field named like proxy metadata the head rules protect, see `trailer_protected` (HTTP/1.1
+    ///   trailers are forwarded unfiltered: `C13/proxy-metadata-via-trailer`).
+    /// Repaired and therefore generated freely: a client field named like the correlation header, several
+    /// X-Request-Id fields in one head, a non-sticky cluster after a sticky one on one connection.
+    pub strict: bool,
+    /// fields removed by the exclusion above when the case was generated
+    pub excluded: u32,
+}
+
+fn bytes(s: &str) -> Vec<u8> {
+    s.chars().map(|c| c as u32 as u8).collect()
+}
+
+fn lc(b: &[u8]) -> String {
+    b.iter().map(|c| c.to_ascii_lowercase() as char).collect()
+}
+
+fn fields(h: &[Hdr]) -> Fields {
+    h.iter().map(|(n, v)| (bytes(n), bytes(v))).collect()
+}
+
+impl Case {
+    pub fn cfg(&self) -> &'static ListenerCfg {
+        &LISTENERS[self.listener as usize % LISTENERS.len()]
+    }
+}
+
+/// Names a client must not be able to deliver to the backend through the trailer section: in the head sozu
+/// either removes them (correlation header per the property, X-Real-IP under `elide_x_real_ip`), allows one
+/// (X-Request-Id: the trailer one is always a second one) or appends its own truthful element AFTER the client's
+/// (X-Forwarded-For, Forwarded: a trailer line comes after sozu's element). sozu's H2 trailer path
+/// (`pkawa::handle_trailer`) elides exactly these for this reason.
+fn trailer_protected(name_lc: &str, cfg: &ListenerCfg) -> bool {
+    name_lc == cfg.corr.to_ascii_lowercase() || name_lc == "x-request-id" || name_lc == "x-forwarded-for" || name_lc == "forwarded" || (name_lc == "x-real-ip" && cfg.elide)
+}
+
+/// The by-construction exclusion (see `Case::strict`). Returns the number of fields removed.
+pub fn sanitise(case: &mut Case) -> u32 {
+    let cfg = *case.cfg();
+    let mut removed = 0;
+    let corr = cfg.corr.to_ascii_lowercase();
+    let _ = &corr;
+    // head fields are no longer sanitised: the client-copy-of-the-correlation-header and duplicate
+    // X-Request-Id findings are repaired (see known_findings.jsonl, `fixed`)
+    // nothing is sanitised any more: the trailer finding is repaired as well
+    let mut keep = |_n: &str, _trailer: bool, _seen_rid: &mut bool| -> bool { true };
+    let _ = (&cfg, &mut removed);
+    for r in case.reqs.iter_mut() {
+        let mut seen_rid = false;
+        r.headers.retain(|(n, _)| keep(n, false, &mut seen_rid));
+        r.trailers.retain(|(n, _)| keep(n, true, &mut seen_rid));
+    }
+    removed
+}
+
+// ------------------------------------------------------------------ generator
+
+const MANAGED: &[&str] = &["X-Forwarded-For", "X-Forwarded-For", "Forwarded", "Forwarded", "X-Real-IP", "X-Real-IP", "X-Forwarded-Proto", "X-Forwarded-Port", "X-Request-Id", "Sozu-Id", "X-Edge-Trace", "X-Forwarded-Host"];
+const E2E: &[&str] = &["X-A", "X-B", "X-C", "Accept", "User-Agent", "Authorization", "X-Del-Req", "X-Del-Both", "X-Edit-Req", "X-Edit-Both", "X-Del-Resp", "Cache-Control", "X-Hop1"];
+const HOP: &[&str] = &["Connection", "Connection", "Connection", "Keep-Alive", "TE", "Upgrade", "Proxy-Connection", "X-Hop1", "X-Hop1", "X-Hop2"];
+const CONNECTION_VALUES: &[&str] = &["keep-alive", "close", "Keep-Alive, X-Hop1", "x-hop1, x-hop2", "X-Hop1", "x-hop1", "upgrade", "TE, x-hop1", "Close", "x-hop2", "X-Real-IP", "x-forwarded-for, keep-alive", "", "keep-alive, close"];
+const RESP_NAMES: &[&str] = &[
+    "Set-Cookie", "Set-Cookie", "Connection", "Cache-Control", "Content-Type", "Location", "X-R1", "X-R2", "X-Del-Resp", "X-Del-Both", "X-Edit-Resp", "X-Edit-Both", "@corr", "Sozu-Id", "Strict-Transport-Security",
+    "Keep-Alive", "Vary", "X-Forwarded-For", "X-Request-Id", "Server",
+];
+
+fn typical(name_lc: &str, x: u32) -> String {
+    let pool: &[&str] = match name_lc {
+        "x-forwarded-for" => &["203.0.113.7", "203.0.113.7, 198.51.100.2", "unknown", "127.0.0.1", "2001:db8::1", "10.0.0.1,10.0.0.2 ,10.0.0.3", ", ", "8.8.8.8,"],
+        "forwarded" => &["for=203.0.113.7", "for=\"[2001:db8::1]:4711\";proto=https;by=198.51.100.1", "for=1.2.3.4, for=5.6.7.8;host=evil.example", "proto=https", "for=_hidden;by=_sozu", "FOR=127.0.0.1;Proto=http"],
+        "x-real-ip" => &["6.6.6.6", "127.0.0.1", "2001:db8::6", "unknown", "10.1.1.1, 10.2.2.2"],
+        "x-forwarded-proto" => &["https", "http", "HTTPS", "wss", "https, http"],
+        "x-forwarded-port" => &["443", "80", "0", "99999", "8443, 80"],
+        "x-request-id" => &["client-req-1", "01ARZ3NDEKTSV4RRFFQ69G5FAV", "7f3c1b2a-0000-4000-8000-000000000000", "a b"],
+        "sozu-id" | "x-edge-trace" | "@corr" => &["01ARZ3NDEKTSV4RRFFQ69G5FAV", "01BX5ZZKBKACTAV9WEVGEMMVRZ", "spoofed", "00000000000000000000000000"],
+        "x-forwarded-host" => &["evil.example", "plain.lab"],
+        "keep-alive" => &["timeout=5, max=100", "timeout=1"],
+        "te" => &["trailers", "trailers, deflate;q=0.5", "gzip"],
+        "upgrade" => &["websocket", "h2c", "foo/2"],
+        "proxy-connection" => &["keep-alive", "close"],
+        "connection" => CONNECTION_VALUES,
+        "accept" => &["*/*", "text/html, application/json;q=0.9"],
+        "user-agent" => &["lab/1.0 (c13)", "curl/8.0"],
+        "authorization" => &["Basic dXNlcjpwYXNz", "Bearer abc.def.ghi"],
+        "cache-control" => &["no-cache", "max-age=0, private"],
+        "content-type" => &["text/plain", "application/json; charset=utf-8"],
+        "location" => &["/elsewhere", "http://plain.lab/x?y=1"],
+        "strict-transport-security" => &["max-age=31536000", "max-age=0; includeSubDomains"],
+        "vary" => &["Accept-Encoding", "*"],
+        "server" => &["mock", ""],
+        _ => &["1", "v", "yes", "a,b"],
+    };
+    pool[pick_idx(x, pool.len())].to_string()
+}
+
+fn generic_value() -> BoxedStrategy<String> {
+    prop_oneof![
+        4 => Just(String::new()),
+        7 => "[a-zA-Z0-9._~-]{1,24}",
+        5 => "[ -!#-~]{0,40}",
+        2 => ("[a-z]{1,8}", 150usize..1800).prop_map(|(s, n)| s.repeat(n / s.len() + 1)),
+        1 => ("[a-z]{0,6}", 0x80u32..=0xFF, "[a-z]{0,6}").prop_map(|(a, c, b)| format!("{a}{}{b}", char::from_u32(c).unwrap())),
+        2 => ("[a-z]{1,6}", "[a-z]{1,6}").prop_map(|(a, b)| format!("{a}\t {b}")),
+        2 => ("[a-z0-9]{1,6}", "[a-z0-9]{0,6}", "[a-z0-9]{1,6}").prop_map(|(a, b, c)| format!("{a}, {b},{c}")),
+        2 => "[a-z]{1,6}".prop_map(|a| format!("\"{a}, q\"")),
+    ]
+    .boxed()
+}
+
+/// (name or placeholder, value, case mask)
+fn name_value(names: &'static [&'static str]) -> BoxedStrategy<(String, String, u32)> {
+    (any::<u32>(), any::<u32>(), prop_oneof![3 => Just(None), 2 => generic_value().prop_map(Some)], prop_oneof![3 => Just(0u32), 1 => any::<u32>()])
+        .prop_map(move |(ni, ti, gv, mask)| {
+            let name = names[pick_idx(ni, names.len())].to_string();
+            let value = gv.unwrap_or_else(|| typical(&name.to_ascii_lowercase(), ti));
+            (name, value, mask)
+        })
+        .boxed()
+}
+
+const CRUMB_NAMES: &[&str] = &["sid", "theme", "@sticky", "@sticky", "SOZUBALANCEID", "LABSTICK", "sozubalanceid", "Labstick", "a", "@sticky2"];
+const CRUMB_VALUES: &[&str] = &["1", "abc", "@backend", "@backend", "bogus-backend", "", "k=v", "hello world", "sticky-0", "plain-0", "0123456789abcdef0123456789abcdef"];
+
+fn cookie_header() -> BoxedStrategy<(String, String, u32)> {
+    (prop::collection::vec((any::<u32>(), any::<u32>()), 1..5), prop_oneof![4 => Just("; "), 1 => Just(";"), 1 => Just(";  ")], prop_oneof![4 => Just(0u32), 1 => any::<u32>()])
+        .prop_map(|(crumbs, sep, mask)| {
+            let v: Vec<String> = crumbs.iter().map(|(n, v)| format!("{}={}", CRUMB_NAMES[pick_idx(*n, CRUMB_NAMES.len())], CRUMB_VALUES[pick_idx(*v, CRUMB_VALUES.len())])).collect();
+            ("Cookie".to_string(), v.join(sep), mask)
+        })
+        .boxed()
+}
+
+fn request_header() -> BoxedStrategy<(String, String, u32)> {
+    prop_oneof![5 => name_value(MANAGED), 2 => cookie_header(), 2 => name_value(HOP), 4 => name_value(E2E)].boxed()
+}
+
+fn recase(name: &str, mask: u32) -> String {
+    if mask == 0 {
+        return name.to_string();
+    }
+    name.chars().enumerate().map(|(i, c)| if mask >> (i % 32) & 1 == 1 { if c.is_ascii_lowercase() { c.to_ascii_uppercase() } else { c.to_ascii_lowercase() } } else { c }).collect()
+}
+
+/// a generated list plus duplicates of some of its entries (same name, other value) at other positions
+fn header_list(item: fn() -> BoxedStrategy<(String, String, u32)>, max: usize) -> BoxedStrategy<Vec<(String, String, u32)>> {
+    (prop::collection::vec(item(), 0..max), prop::collection::vec((any::<u32>(), any::<u32>(), any::<u32>(), prop_oneof![2 => Just(None), 1 => generic_value().prop_map(Some)], any::<u32>()), 0..3))
+        .prop_map(|(mut list, dups)| {
+            for (src, pos, ti, gv, mask) in dups {
+                if list.is_empty() {
+                    break;
+                }
+                let (name, _, _) = list[pick_idx(src, list.len())].clone();
+                let value = if name == "Cookie" {
+                    format!("{}={}", CRUMB_NAMES[pick_idx(ti, CRUMB_NAMES.len())], CRUMB_VALUES[pick_idx(mask, CRUMB_VALUES.len())])
+                } else {
+                    gv.unwrap_or_else(|| typical(&name.to_ascii_lowercase(), ti))
+                };
+                let at = pick_idx(pos, list.len() + 1);
+                list.insert(at, (name, value, if mask % 3 == 0 { mask } else { 0 }));
+            }
+            list
+        })
+        .boxed()
+}
+
+fn response_header() -> BoxedStrategy<(String, String, u32)> {
+    prop_oneof![
+        3 => name_value(RESP_NAMES),
+        1 => (any::<u32>(), any::<u32>()).prop_map(|(n, v)| (
+            "Set-Cookie".to_string(),
+            format!("{}={}; Path=/", CRUMB_NAMES[pick_idx(n, CRUMB_NAMES.len())], CRUMB_VALUES[pick_idx(v, CRUMB_VALUES.len())]),
+            0u32
+        )),
+    ]
+    .boxed()
+}
+
+const METHODS: &[&str] = &["GET", "GET", "POST", "PUT", "DELETE", "PATCH", "OPTIONS"];
+const TARGETS: &[&str] = &["/", "/c13/a", "/c13/a/b?x=1&y=2", "/%7Euser/a%20b", "/c13?x-forwarded-for=1.2.3.4", "/a//b/../c", "@abs", "/;p=1?q#frag", "/very/long/path/segment/0123456789/0123456789/0123456789/0123456789/0123456789"];
+const STATUSES: &[u16] = &[200, 200, 200, 201, 404, 500, 302, 204, 304];
+
+fn raw_req() -> impl Strategy<Value = (u32, u32, u32, Vec<(String, String, u32)>, u16, bool, Vec<(String, String, u32)>, Option<u16>, (u32, Vec<(String, String, u32)>, u16, bool))> {
+    (
+        any::<u32>(),
+        any::<u32>(),
+        any::<u32>(),
+        header_list(request_header, 9),
+        prop_oneof![2 => Just(0u16), 2 => 1u16..1500],
+        any::<bool>(),
+        prop_oneof![1 => Just(vec![]), 1 => prop::collection::vec(prop_oneof![3 => name_value(MANAGED), 1 => name_value(E2E)], 1..4)],
+        prop_oneof![3 => Just(None), 1 => (1u16..400).prop_map(Some)],
+        (any::<u32>(), header_list(response_header, 7), prop_oneof![1 => Just(0u16), 2 => 1u16..1500], any::<bool>()),
+    )
+}
+
+fn src_strategy() -> impl Strategy<Value = (Src, Src)> {
+    let v4 = prop_oneof![Just([203u8, 0, 113, 9]), Just([10, 0, 0, 1]), Just([127, 0, 0, 1]), Just([255, 255, 255, 255]), Just([0, 0, 0, 0]), any::<[u8; 4]>()];
+    let v6 = prop_oneof![
+        Just([0x20, 0x01, 0x0d, 0xb8, 0, 0, 0, 0, 0, 0, 0, 0, 0, 0, 0, 1]),
+        Just([0, 0, 0, 0, 0, 0, 0, 0, 0, 0, 0, 0, 0, 0, 0, 1]),
+        Just([0, 0, 0, 0, 0, 0, 0, 0, 0, 0, 0xff, 0xff, 192, 0, 2, 33]),
+        Just([0xfe, 0x80, 0, 0, 0, 0, 0, 0, 0, 0, 0, 0, 0, 0, 0xab, 0xcd]),
+        any::<[u8; 16]>(),
+    ];
+    let port = prop_oneof![Just(1u16), Just(80), Just(65535), any::<u16>()];
+    (
+        (1u8..=254, any::<u8>(), 1u8..=254).prop_map(|(a, b, c)| Src::Direct { ip: [a % 4, b % 3, c] }),
+        prop_oneof![
+            (v4.clone(), port.clone(), v4, port.clone()).prop_map(|(src, sport, dst, dport)| Src::ProxyV4 { src, sport, dst, dport }),
+            (v6.clone(), port.clone(), v6, port).prop_map(|(src, sport, dst, dport)| Src::ProxyV6 { src, sport, dst, dport }),
+        ],
+    )
+}
+
+fn resolve(list: Vec<(String, String, u32)>, cfg: &ListenerCfg, cluster: usize, forwarded_balanced: bool) -> Vec<Hdr> {
+    let other_sticky = if cfg.sticky == hdrlab::STICKY_DEFAULT { hdrlab::STICKY_CUSTOM } else { hdrlab::STICKY_DEFAULT };
+    list.into_iter()
+        .map(|(n, v, mask)| {
+            let n = if n == "@corr" { cfg.corr.to_string() } else { n };
+            let mut v = v.replace("@sticky2", other_sticky).replace("@sticky", cfg.sticky).replace("@backend", CLUSTERS[cluster].2);
+            if forwarded_balanced && n.eq_ignore_ascii_case("forwarded") && v.matches('"').count() % 2 == 1 {
+                v = v.replace('"', "");
+            }
+            (recase(&n, mask), v)
+        })
+        .collect()
+}
+
+pub fn strategy() -> impl Strategy<Value = Case> {
+    (any::<u32>(), src_strategy(), prop::collection::vec(raw_req(), 1..4)).prop_map(|(l, (direct, proxied), raws)| {
+        let listener = pick_idx(l, LISTENERS.len()) as u8;
+        let cfg = &LISTENERS[listener as usize];
+        let src = if cfg.expect_proxy { proxied } else { direct };
+        let reqs = raws
+            .into_iter()
+            .map(|(c, m, t, headers, body_len, chunked, trailers, split, (st, rh, rlen, rchunked))| {
+                let cluster = pick_idx(c, CLUSTERS.len());
+                let method = METHODS[pick_idx(m, METHODS.len())].to_string();
+                let has_body = matches!(method.as_str(), "POST" | "PUT" | "PATCH");
+                let target = match TARGETS[pick_idx(t, TARGETS.len())] {
+                    "@abs" => format!("http://{}/abs?q=1", CLUSTERS[cluster].1),
+                    t => t.to_string(),
+                };
+                let mut headers = resolve(headers, cfg, cluster, true);
+                // keep the head well inside sozu's buffer
+                let mut total = 0;
+                headers.retain(|(n, v)| {
+                    total += n.len() + v.len() + 4;
+                    total < 9000
+                });
+                let chunked = has_body && chunked;
+                let mut rh = resolve(rh, cfg, cluster, false);
+                let mut rtotal = 0;
+                rh.retain(|(n, v)| {
+                    rtotal += n.len() + v.len() + 4;
+                    // obs-text in a response is the backend's doing, not in the property's quantifier for requests; keep responses clean ASCII
+                    rtotal < 9000 && v.chars().all(|c| (c as u32) < 0x7f)
+                });
+                Req {
+                    cluster: cluster as u8,
+                    method,
+                    target,
+                    headers,
+                    body_len: if has_body { body_len } else { 0 },
+                    chunked,
+                    trailers: if chunked { resolve(trailers, cfg, cluster, true).into_iter().filter(|(_, v)| v.len() < 600 && v.chars().all(|c| (c as u32) < 0x7f)).collect() } else { vec![] },
+                    split,
+                    resp: Resp { status: STATUSES[pick_idx(st, STATUSES.len())], headers: rh, body_len: rlen, chunked: rchunked },
+                }
+            })
+            .collect();
+        let mut case = Case { listener, src, reqs, strict: false, excluded: 0 };
+        case.excluded = sanitise(&mut case);
+        case
+    })
+}
+
+
+// ------------------------------------------------------------------ oracle helpers
+
+type Grouped = BTreeMap<String, Vec<Vec<u8>>>;
+
+fn group(f: &Fields) -> Grouped {
+    let mut g = Grouped::new();
+    for (n, v) in f {
+        g.entry(lc(n)).or_default().push(trim(v).to_vec());
+    }
+    g
+}
+
+fn get<'a>(g: &'a Grouped, n: &str) -> &'a [Vec<u8>] {
+    g.get(n).map(|v| v.as_slice()).unwrap_or(&[])
+}
+
+fn show(v: &[Vec<u8>]) -> String {
+    format!("{:?}", v.iter().map(|x| engine::truncate(&lossy(x), 100)).collect::<Vec<_>>())
+}
+
+fn trim(v: &[u8]) -> &[u8] {
+    let mut a = 0;
+    let mut b = v.len();
+    while a < b && (v[a] == b' ' || v[a] == b'\t') {
+        a += 1;
+    }
+    while b > a && (v[b - 1] == b' ' || v[b - 1] == b'\t') {
+        b -= 1;
+    }
+    &v[a..b]
+}
+
+/// the comma-separated elements of a list-valued field given as several lines
+fn elements(lines: &[Vec<u8>]) -> Vec<Vec<u8>> {
+    lines.iter().flat_map(|l| l.split(|b| *b == b',').map(|e| trim(e).to_vec()).collect::<Vec<_>>()).collect()
+}
+
+fn crumbs(lines: &[Vec<u8>]) -> Vec<Vec<u8>> {
+    lines.iter().flat_map(|l| l.split(|b| *b == b';').map(|e| trim(e).to_vec()).filter(|e| !e.is_empty()).collect::<Vec<_>>()).collect()
+}
+
+fn is_ulid(v: &[u8]) -> bool {
+    v.len() == 26 && v.iter().all(|c| b"0123456789ABCDEFGHJKMNPQRSTVWXYZ".contains(c))
+}
+
+fn same_ip(a: IpAddr, b: IpAddr) -> bool {
+    a.to_canonical() == b.to_canonical()
+}
+
+fn ip_of(v: &[u8]) -> Option<IpAddr> {
+    std::str::from_utf8(v).ok()?.parse().ok()
+}
+
+/// `ip`, `ip:port`, `[v6]`, `[v6]:port`
+fn node(s: &str) -> Option<(IpAddr, Option<u16>)> {
+    if let Some(rest) = s.strip_prefix('[') {
+        let (ip, tail) = rest.split_once(']')?;
+        let ip: Ipv6Addr = ip.parse().ok()?;
+        return match tail.strip_prefix(':') {
+            Some(p) => Some((ip.into(), Some(p.parse().ok()?))),
+            None if tail.is_empty() => Some((ip.into(), None)),
+            None => None,
+        };
+    }
+    if let Ok(ip) = s.parse::<IpAddr>() {
+        return Some((ip, None));
+    }
+    let (ip, p) = s.rsplit_once(':')?;
+    Some((ip.parse::<Ipv4Addr>().ok()?.into(), Some(p.parse().ok()?)))
+}
+
+fn forwarded_params(e: &[u8]) -> BTreeMap<String, String> {
+    let mut m = BTreeMap::new();
+    for p in e.split(|b| *b == b';') {
+        let p = String::from_utf8_lossy(trim(p)).to_string();
+        if let Some((k, v)) = p.split_once('=') {
+            m.insert(k.trim().to_ascii_lowercase(), v.trim().trim_matches('"').to_string());
+        }
+    }
+    m
+}
+
+/// remove one occurrence of a value satisfying `pred` so that the rest equals `want`
+fn minus_one(have: &[Vec<u8>], want: &[Vec<u8>], pred: impl Fn(&[u8]) -> bool) -> bool {
+    if have.len() != want.len() + 1 {
+        return false;
+    }
+    (0..have.len()).any(|i| pred(&have[i]) && have[..i].iter().chain(have[i + 1..].iter()).eq(want.iter()))
+}
+
+const HOP_BASE: &[&str] = &["connection", "keep-alive", "proxy-connection", "te", "upgrade", "transfer-encoding", "content-length", "trailer"];
+
+struct Peer {
+    ip: IpAddr,
+    port: u16,
+    /// addresses that may be reported as the listener's public address
+    public: Vec<SocketAddr>,
+}
+
+/// `have` is `want` plus one `<sticky name>=...; Path=/` cookie
+fn plus_any_sticky(have: &[Vec<u8>], want: &[Vec<u8>], sticky: &str) -> bool {
+    let p = format!("{sticky}=").into_bytes();
+    minus_one(have, want, |v| v.starts_with(&p) && v.ends_with(b"; Path=/"))
+}
+
+struct Ctx<'a> {
+    /// an earlier request on this connection went to a sticky cluster
+    sticky_seen: bool,
+    cfg: &'a ListenerCfg,
+    peer: &'a Peer,
+    cluster: usize,
+    i: usize,
+}
+
+/// what the backend received against what the client sent
+fn check_request(cx: &Ctx, sent: &RawMsg, got: &RawMsg) -> Result<(), Failure> {
+    let (cfg, peer, i) = (cx.cfg, cx.peer, cx.i);
+    let corr = cfg.corr.to_ascii_lowercase();
+    let ctx = |what: &str| format!("request {i} on listener {:?} from {}:{}: {what}\n  client sent {:?} {}\n  trailers {}\n  backend got {:?} {}\n  trailers {}", cfg, peer.ip, peer.port, lossy(&sent.start), show_fields(&sent.headers), show_fields(&sent.trailers), lossy(&got.start), show_fields(&got.headers), show_fields(&got.trailers));
+    let sp = sent.start_parts();
+    let gp = got.start_parts();
+    if gp.len() != 3 || gp[0] != sp[0] || gp[1] != sp[1] {
+        fail!("C13/request-line-changed", "{}", ctx("method or target changed"));
+    }
+    if got.body != sent.body || !got.clean {
+        fail!("C13/request-body-changed", "{}", ctx(&format!("body: {} bytes sent, {} received (clean end: {})", sent.body.len(), got.body.len(), got.clean)));
+    }
+    let c = group(&sent.headers);
+    let b = group(&got.headers);
+    let conn_named: BTreeSet<String> = elements(get(&c, "connection")).iter().map(|e| lc(e)).filter(|e| !e.is_empty()).collect();
+    // the lists a compliant proxy may treat as the client's list of field `n`: as sent, or dropped when `n` is named by Connection
+    let cands = |n: &str| -> Vec<Vec<Vec<u8>>> {
+        let mut v = vec![get(&c, n).to_vec()];
+        if conn_named.contains(n) && !get(&c, n).is_empty() {
+            v.push(vec![]);
+        }
+        v
+    };
+    let edit = cx.cluster == EDIT_CLUSTER;
+    let managed: BTreeSet<&str> = ["x-forwarded-for", "forwarded", "x-real-ip", "x-forwarded-proto", "x-forwarded-port", "x-request-id", "cookie", corr.as_str()].into_iter().collect();
+
+    // ---- end-to-end fields: same values in the same order per name, nothing added
+    let names: BTreeSet<&String> = c.keys().chain(b.keys()).collect();
+    for n in names {
+        let n = n.as_str();
+        if managed.contains(n) || ["connection", "keep-alive", "proxy-connection", "transfer-encoding", "content-length"].contains(&n) {
+            continue;
+        }
+        let (have, sent_v) = (get(&b, n), get(&c, n));
+        if edit && (n == "x-del-req" || n == "x-del-both") {
+            if !have.is_empty() {
+                fail!("C13/frontend-edit:request", "{}", ctx(&format!("the frontend deletes {n} from requests, the backend received {}", show(have))));
+            }
+            continue;
+        }
+        if edit && (n == "x-edit-req" || n == "x-edit-both") {
+            let v = if n == "x-edit-req" { b"req-v".to_vec() } else { b"both-v".to_vec() };
+            let appended: Vec<Vec<u8>> = sent_v.iter().cloned().chain([v.clone()]).collect();
+            if have != appended.as_slice() && have != [v] {
+                fail!("C13/frontend-edit:request", "{}", ctx(&format!("the frontend sets {n}; the backend received {}", show(have))));
+            }
+            continue;
+        }
+        if HOP_BASE.contains(&n) || conn_named.contains(n) {
+            if have != sent_v && !have.is_empty() {
+                fail!("C13/request-field-changed:hop-by-hop", "{}", ctx(&format!("hop-by-hop field {n}: sent {}, received {} (neither intact nor removed)", show(sent_v), show(have))));
+            }
+            continue;
+        }
+        if have != sent_v {
+            fail!("C13/request-field-changed", "{}", ctx(&format!("end-to-end field {n}: sent {}, backend received {}", show(sent_v), show(have))));
+        }
+    }
+    // ---- cookies
+    let sticky_prefix = format!("{}=", cfg.sticky).into_bytes();
+    let want_crumbs: Vec<Vec<u8>> = crumbs(get(&c, "cookie")).into_iter().filter(|k| !k.starts_with(&sticky_prefix)).collect();
+    let have_crumbs = crumbs(get(&b, "cookie"));
+    if have_crumbs.iter().any(|k| k.starts_with(&sticky_prefix)) {
+        fail!("C13/sticky-cookie-forwarded", "{}", ctx(&format!("sozu's own sticky cookie {} reached the backend", cfg.sticky)));
+    }
+    if have_crumbs != want_crumbs {
+        fail!("C13/cookie-changed", "{}", ctx(&format!("cookies other than {}: sent {}, received {}", cfg.sticky, show(&want_crumbs), show(&have_crumbs))));
+    }
+    // ---- X-Forwarded-For: the client's elements, then the peer
+    let have = elements(get(&b, "x-forwarded-for"));
+    let ok = cands("x-forwarded-for").iter().any(|cv| {
+        let want = elements(cv);
+        have.len() == want.len() + 1 && have[..want.len()] == want[..] && ip_of(&have[want.len()]).map(|ip| same_ip(ip, peer.ip)).unwrap_or(false)
+    });
+    if !ok {
+        fail!("C13/x-forwarded-for", "{}", ctx(&format!("X-Forwarded-For elements at the backend {} are not the client's {} followed by the peer {}", show(&have), show(&elements(get(&c, "x-forwarded-for"))), peer.ip)));
+    }
+    // ---- Forwarded: the client's elements, then one element naming the peer
+    let have = elements(get(&b, "forwarded"));
+    let ok = cands("forwarded").iter().any(|cv| {
+        let want = elements(cv);
+        if !(have.len() == want.len() + 1 && have[..want.len()] == want[..]) {
+            return false;
+        }
+        let p = forwarded_params(&have[want.len()]);
+        let for_ok = p.get("for").and_then(|f| node(f)).map(|(ip, port)| same_ip(ip, peer.ip) && port.map(|p| p == peer.port).unwrap_or(true)).unwrap_or(false);
+        let proto_ok = p.get("proto").map(|v| v == "http").unwrap_or(true);
+        let by_ok = p.get("by").map(|v| node(v).map(|(ip, port)| peer.public.iter().any(|a| same_ip(a.ip(), ip) && port.map(|p| p == a.port()).unwrap_or(true))).unwrap_or(false)).unwrap_or(true);
+        for_ok && proto_ok && by_ok
+    });
+    if !ok {
+        fail!("C13/forwarded", "{}", ctx(&format!("Forwarded elements at the backend {} are not the client's {} followed by one element with for={}:{}, proto=http, by=listener", show(&have), show(&elements(get(&c, "forwarded"))), peer.ip, peer.port)));
+    }
+    // ---- X-Real-IP
+    let have = get(&b, "x-real-ip");
+    let is_peer = |v: &[u8]| ip_of(v).map(|ip| same_ip(ip, peer.ip)).unwrap_or(false);
+    let ok = cands("x-real-ip").iter().any(|cv| {
+        let kept: Vec<Vec<u8>> = if cfg.elide { vec![] } else { cv.clone() };
+        if cfg.send { minus_one(have, &kept, is_peer) } else { have == kept.as_slice() }
+    });
+    if !ok {
+        let sig = if cfg.elide && !get(&c, "x-real-ip").is_empty() && have.iter().any(|v| get(&c, "x-real-ip").contains(v) && !is_peer(v)) { "C13/x-real-ip-not-elided" } else { "C13/x-real-ip" };
+        fail!(sig, "{}", ctx(&format!("X-Real-IP at the backend {} (elide {}, send {}, client sent {}, peer {})", show(have), cfg.elide, cfg.send, show(get(&c, "x-real-ip")), peer.ip)));
+    }
+    // ---- X-Forwarded-Proto / -Port
+    for (n, want) in [("x-forwarded-proto", vec![b"http".to_vec()]), ("x-forwarded-port", peer.public.iter().map(|a| a.port().to_string().into_bytes()).collect::<Vec<_>>())] {
+        let have = get(&b, n);
+        let ok = cands(n).iter().any(|cv| if cv.is_empty() { have.len() == 1 && want.contains(&have[0]) } else { have == cv.as_slice() });
+        if !ok {
+            fail!(format!("C13/{n}"), "{}", ctx(&format!("{n} at the backend {}: expected the client's {} or, without one, exactly one of {}", show(have), show(get(&c, n)), show(&want))));
+        }
+    }
+    // ---- trailers: nothing the head rules protect may arrive through the trailer section
+    let trailers_b = group(&got.trailers);
+    let leaked: Vec<String> = trailers_b.keys().filter(|n| trailer_protected(n, cfg)).map(|n| format!("{n}: {}", show(get(&trailers_b, n)))).collect();
+    if !leaked.is_empty() {
+        fail!("C13/proxy-metadata-via-trailer", "{}", ctx(&format!("client-supplied trailer fields carrying proxy metadata reached the backend: {leaked:?}")));
+    }
+    // ---- exactly one request id, exactly one correlation header
+    let rid = get(&b, "x-request-id");
+    if rid.len() != 1 {
+        fail!("C13/duplicate-request-id", "{}", ctx(&format!("{} X-Request-Id fields reached the backend {}, exactly one is required", rid.len(), show(rid))));
+    }
+    let sent_rid = get(&c, "x-request-id");
+    if !sent_rid.contains(&rid[0]) && !is_ulid(&rid[0]) {
+        fail!("C13/request-id", "{}", ctx(&format!("the X-Request-Id at the backend {} is neither the client's {} nor a generated ULID", show(rid), show(sent_rid))));
+    }
+    let cid = get(&b, &corr);
+    if cid.len() != 1 {
+        fail!("C13/client-correlation-header-forwarded", "{}", ctx(&format!("{} {} fields reached the backend {}, exactly one — sozu's — is required; the client sent {}", cid.len(), cfg.corr, show(cid), show(get(&c, &corr)))));
+    }
+    if !is_ulid(&cid[0]) {
+        fail!("C13/correlation-header", "{}", ctx(&format!("the {} at the backend {} is not a ULID", cfg.corr, show(cid))));
+    }
+    // ---- trailers
+    let tc = group(&sent.trailers);
+    let names: BTreeSet<&String> = tc.keys().chain(trailers_b.keys()).collect();
+    for n in names {
+        let n = n.as_str();
+        let (have, sent_v) = (get(&trailers_b, n), get(&tc, n));
+        if trailer_protected(n, cfg) {
+            continue; // judged above
+        }
+        // the frontend's delete edits remove "every existing header with the matching name": trailer fields included
+        let droppable = managed.contains(n) || HOP_BASE.contains(&n) || conn_named.contains(n) || (edit && (n == "x-del-req" || n == "x-del-both"));
+        if have != sent_v && !(droppable && have.is_empty()) {
+            fail!("C13/trailer-changed", "{}", ctx(&format!("trailer field {n}: sent {}, backend received {}", show(sent_v), show(have))));
+        }
+    }
+    Ok(())
+}
+
+/// what the client received against what the backend sent; `backend_corr`: the correlation id the backend saw
+fn check_response(cx: &Ctx, req_sent: &RawMsg, plan_sent: &RawMsg, got: &RawMsg, backend_corr: &[u8]) -> Result<(), Failure> {
+    let (cfg, i) = (cx.cfg, cx.i);
+    let corr = cfg.corr.to_ascii_lowercase();
+    let ctx = |what: &str| format!("response {i} on listener {:?} (cluster {}): {what}\n  backend sent {:?} {}\n  client got {:?} {}\n  request cookies {}", cfg, CLUSTERS[cx.cluster].0, lossy(&plan_sent.start), show_fields(&plan_sent.headers), lossy(&got.start), show_fields(&got.headers), show(get(&group(&req_sent.headers), "cookie")));
+    if got.status() != plan_sent.status() {
+        fail!("C13/response-status", "{}", ctx("status changed"));
+    }
+    if got.body != plan_sent.body || !got.clean {
+        fail!("C13/response-body", "{}", ctx(&format!("body: {} bytes sent, {} received (clean end {})", plan_sent.body.len(), got.body.len(), got.clean)));
+    }
+    let s = group(&plan_sent.headers);
+    let g = group(&got.headers);
+    let conn_named: BTreeSet<String> = elements(get(&s, "connection")).iter().map(|e| lc(e)).filter(|e| !e.is_empty()).collect();
+    let edit = cx.cluster == EDIT_CLUSTER;
+    let sticky = CLUSTERS[cx.cluster].3;
+    let names: BTreeSet<&String> = s.keys().chain(g.keys()).collect();
+    for n in names {
+        let n = n.as_str();
+        if ["connection", "keep-alive", "proxy-connection", "transfer-encoding", "content-length"].contains(&n) {
+            continue;
+        }
+        let (have, sent_v) = (get(&g, n), get(&s, n));
+        if n == corr {
+            if !minus_one(have, sent_v, |v| v == backend_corr) {
+                let sig = if minus_one(have, sent_v, is_ulid) { "C13/correlation-id-mismatch" } else { "C13/response-correlation-header" };
+                fail!(sig, "{}", ctx(&format!("{}: the client must receive the backend's {} plus exactly one added by sozu carrying the request's id {:?}; it received {}", cfg.corr, show(sent_v), lossy(backend_corr), show(have))));
+            }
+            continue;
+        }
+        if n == "set-cookie" {
+            let sticky_prefix = format!("{}=", cfg.sticky).into_bytes();
+            let sent_sticky: Vec<Vec<u8>> = crumbs(get(&group(&req_sent.headers), "cookie")).into_iter().filter(|k| k.starts_with(&sticky_prefix)).map(|k| k[sticky_prefix.len()..].to_vec()).collect();
+            let id = CLUSTERS[cx.cluster].2.as_bytes();
+            let added = format!("{}={}; Path=/", cfg.sticky, CLUSTERS[cx.cluster].2).into_bytes();
+            let intact = have == sent_v;
+            let plus_cookie = minus_one(have, sent_v, |v| v == added.as_slice());
+            let ok = if !sticky {
+                intact
+            } else if sent_sticky.is_empty() || sent_sticky.iter().all(|v| v != id) {
+                plus_cookie
+            } else if sent_sticky.iter().all(|v| v == id) {
+                intact
+            } else {
+                intact || plus_cookie
+            };
+            if !ok {
+                let sig = if !sticky && cx.sticky_seen && plus_any_sticky(have, sent_v, cfg.sticky) { "C13/sticky-cookie-leaks-across-keepalive" } else { "C13/sticky-set-cookie" };
+                fail!(sig, "{}", ctx(&format!("Set-Cookie: backend sent {}, client received {}; sticky cluster: {sticky}, client's sticky cookie values {}, backend id {:?}", show(sent_v), show(have), show(&sent_sticky), CLUSTERS[cx.cluster].2)));
+            }
+            continue;
+        }
+        if edit && (n == "x-del-resp" || n == "x-del-both") {
+            if !have.is_empty() {
+                fail!("C13/frontend-edit:response", "{}", ctx(&format!("the frontend deletes {n} from responses, the client received {}", show(have))));
+            }
+            continue;
+        }
+        if edit && (n == "x-edit-resp" || n == "x-edit-both") {
+            let v = if n == "x-edit-resp" { b"resp-v".to_vec() } else { b"both-v".to_vec() };
+            let appended: Vec<Vec<u8>> = sent_v.iter().cloned().chain([v.clone()]).collect();
+            if have != appended.as_slice() && have != [v] {
+                fail!("C13/frontend-edit:response", "{}", ctx(&format!("the frontend sets {n}; the client received {}", show(have))));
+            }
+            continue;
+        }
+        if HOP_BASE.contains(&n) || conn_named.contains(n) {
+            if have != sent_v && !have.is_empty() {
+                fail!("C13/response-field-changed:hop-by-hop", "{}", ctx(&format!("hop-by-hop field {n}: sent {}, received {}", show(sent_v), show(have))));
+            }
+            continue;
+        }
+        if have != sent_v {
+            fail!("C13/response-field-changed", "{}", ctx(&format!("field {n}: backend sent {}, client received {}", show(sent_v), show(have))));
+        }
+    }
+    if !g.contains_key(&corr) {
+        fail!("C13/response-correlation-header", "{}", ctx(&format!("no {} in the response", cfg.corr)));
+    }
+    Ok(())
+}
+
+
+// ------------------------------------------------------------------ scenario
+
+fn has_token(values: &[&[u8]], token: &[u8]) -> bool {
+    values.iter().any(|v| v.split(|b| *b == b',').any(|e| trim(e).eq_ignore_ascii_case(token)))
+}
+
+struct ClientConn {
+    w: std::net::TcpStream,
+    r: RawConn,
+    peer: Peer,
+}
+
+fn open(lab: &HdrLab, case: &Case) -> Result<ClientConn, Failure> {
+    let laddr = lab.addrs[case.listener as usize % LISTENERS.len()];
+    let src_ip = match &case.src {
+        Src::Direct { ip } => Ipv4Addr::new(127, ip[0], ip[1], ip[2].max(1)),
+        _ => Ipv4Addr::new(127, 0, 0, 1),
+    };
+    let mut attempt = 0;
+    let stream = loop {
+        match hdrlab::connect_from(src_ip, laddr) {
+            Ok(s) => break s,
+            // the harness's own ephemeral ports ran out (TIME_WAIT): not sozu's doing
+            Err(e) if matches!(e.kind(), std::io::ErrorKind::AddrInUse | std::io::ErrorKind::AddrNotAvailable) => {
+                attempt += 1;
+                if attempt > 50 {
+                    panic!("harness: no free source port from {src_ip} to {laddr}: {e}");
+                }
+                std::thread::sleep(Duration::from_millis(100));
+            }
+            Err(e) => return Err(Failure::new("C13/connect-refused", format!("connect from {src_ip} to the listener {laddr} failed: {e}"))),
+        }
+    };
+    let local = stream.local_addr().expect("local_addr");
+    let mut w = stream.try_clone().expect("clone");
+    let peer = match &case.src {
+        Src::Direct { .. } => Peer { ip: local.ip(), port: local.port(), public: vec![laddr] },
+        Src::ProxyV4 { src, sport, dst, dport } => {
+            let (s, d) = (SocketAddr::from((*src, *sport)), SocketAddr::from((*dst, *dport)));
+            let _ = w.write_all(&hdrlab::proxy_v2(s, d));
+            Peer { ip: s.ip(), port: *sport, public: vec![laddr, d] }
+        }
+        Src::ProxyV6 { src, sport, dst, dport } => {
+            let (s, d) = (SocketAddr::from((*src, *sport)), SocketAddr::from((*dst, *dport)));
+            let _ = w.write_all(&hdrlab::proxy_v2(s, d));
+            Peer { ip: s.ip(), port: *sport, public: vec![laddr, d] }
+        }
+    };
+    Ok(ClientConn { w, r: RawConn::new(stream), peer })
+}
+
+const MANAGED_LC: &[&str] = &["x-forwarded-for", "forwarded", "x-real-ip", "x-forwarded-proto", "x-forwarded-port", "x-request-id", "cookie"];
+
+pub fn scenario(lab: &mut HdrLab, case_in: &Case) -> CheckResult {
+    let mut rep = CaseReport::default();
+    if !lab.worker.alive() {
+        return Err(Failure::new("C13/worker-died", format!("the worker thread is gone: {:?}", lab.worker.join())));
+    }
+    let mut case = case_in.clone();
+    let mut excluded = case.excluded;
+    if !case.strict {
+        excluded = excluded.max(sanitise(&mut case));
+    }
+    let case = &case;
+    let cfg = case.cfg();
+    let corr_lc = cfg.corr.to_ascii_lowercase();
+    lab.reset();
+    let mut conn: Option<ClientConn> = None;
+    let mut rejected = 0;
+    let mut forwarded = 0;
+    let mut reused = 0;
+    let mut sticky_seen_on_conn = false;
+    let mut seen_ids: Vec<Vec<u8>> = vec![];
+    for (i, r) in case.reqs.iter().enumerate() {
+        let cluster = r.cluster as usize % CLUSTERS.len();
+        // known finding C13/sticky-cookie-leaks-across-keepalive, excluded by construction unless strict: after a
+        // request to a sticky cluster the session keeps `sticky_session`, and every later response on the same
+        // connection from a cluster that is NOT sticky gets that cluster's Set-Cookie
+        // (the sticky-cookie leak across keep-alive requests is repaired: such sequences stay on one connection)
+        rep.class_if(conn.is_some() && sticky_seen_on_conn && !CLUSTERS[cluster].3, "non_sticky_after_sticky_on_one_connection");
+        if conn.is_none() {
+            conn = Some(open(lab, case)?);
+            sticky_seen_on_conn = false;
+        } else {
+            reused += 1;
+        }
+        sticky_seen_on_conn |= CLUSTERS[cluster].3;
+        let c = conn.as_mut().unwrap();
+        // ---- what the backend will answer
+        let mut resp_fields: Fields = vec![(b"X-Lab-Resp".to_vec(), i.to_string().into_bytes())];
+        resp_fields.extend(fields(&r.resp.headers));
+        let plan = RespPlan { status: r.resp.status, headers: resp_fields, body: lab::h1::content(0xC13 + i as u64, r.resp.body_len as usize), chunked: r.resp.chunked };
+        let plan_msg = RawMsg { start: format!("HTTP/1.1 {} x", plan.status).into_bytes(), headers: plan.headers.clone(), body: if matches!(plan.status, 204 | 304) { vec![] } else { plan.body.clone() }, clean: true, ..Default::default() };
+        let mark = {
+            let mut g = lab.shared.lock().unwrap();
+            g.next = Some(plan);
+            g.recorded.len()
+        };
+        // ---- the request
+        let body = lab::h1::content(0xB0D + i as u64, r.body_len as usize);
+        let mut req_fields: Fields = vec![(b"Host".to_vec(), CLUSTERS[cluster].1.as_bytes().to_vec()), (b"X-Lab-Req".to_vec(), i.to_string().into_bytes())];
+        req_fields.extend(fields(&r.headers));
+        let with_body = matches!(r.method.as_str(), "POST" | "PUT" | "PATCH");
+        if with_body {
+            if r.chunked {
+                req_fields.push((b"Transfer-Encoding".to_vec(), b"chunked".to_vec()));
+            } else {
+                req_fields.push((b"Content-Length".to_vec(), body.len().to_string().into_bytes()));
+            }
+        }
+        let trailers = fields(&r.trailers);
+        let wire = hdrlab::build_msg(&format!("{} {} HTTP/1.1", r.method, r.target), &req_fields, if with_body { Some(&body) } else { None }, r.chunked, &trailers);
+        let sent = RawMsg { start: format!("{} {} HTTP/1.1", r.method, r.target).into_bytes(), headers: req_fields.clone(), body: if with_body { body.clone() } else { vec![] }, trailers: if with_body && r.chunked { trailers.clone() } else { vec![] }, clean: true, chunked: r.chunked };
+        let wrote = match r.split {
+            Some(n) if (n as usize) < wire.len() => c.w.write_all(&wire[..n as usize]).and_then(|_| c.w.flush()).and_then(|_| c.w.write_all(&wire[n as usize..])),
+            _ => c.w.write_all(&wire),
+        };
+        let _ = c.w.flush();
+        let out = c.r.read_msg(true, Instant::now() + Duration::from_secs(6));
+        let resp = match out {
+            RawOut::Msg(m) => m,
+            other => {
+                fail!("C13/no-response", "request {i} (reused connection: {}, wrote: {wrote:?}) {:?} {}: no response: {}", reused > 0, lossy(&sent.start), show_fields(&sent.headers), hdrlab::describe(&other));
+            }
+        };
+        let new: Vec<hdrlab::Recorded> = lab.shared.lock().unwrap().recorded[mark..].to_vec();
+        let obs_text = r.headers.iter().any(|(_, v)| v.chars().any(|ch| ch as u32 >= 0x7f));
+        let from_backend = resp.values("x-lab-resp").first().map(|v| *v == i.to_string().as_bytes()).unwrap_or(false);
+        if !from_backend {
+            // sozu answered by itself
+            if !new.is_empty() {
+                fail!("C13/answered-by-proxy-but-forwarded", "request {i}: sozu answered {:?} itself although {} request(s) reached the backend", lossy(&resp.start), new.len());
+            }
+            if obs_text && resp.status() == Some(400) {
+                rejected += 1;
+                conn = None;
+                continue;
+            }
+            fail!("C13/request-rejected", "request {i} {:?} {} trailers {} was answered by sozu with {:?} {} instead of being forwarded", lossy(&sent.start), show_fields(&sent.headers), show_fields(&sent.trailers), lossy(&resp.start), show_fields(&resp.headers));
+        }
+        if new.len() != 1 {
+            fail!("C13/request-count-at-backend", "request {i} reached the backends {} times", new.len());
+        }
+        if new[0].backend != cluster {
+            fail!("C13/wrong-backend", "request {i} for cluster {} reached the backend of cluster {}", CLUSTERS[cluster].0, CLUSTERS[new[0].backend].0);
+        }
+        forwarded += 1;
+        let cx = Ctx { cfg, peer: &c.peer, cluster, i, sticky_seen: sticky_seen_on_conn };
+        check_request(&cx, &sent, &new[0].msg)?;
+        let backend_corr = new[0].msg.values(&corr_lc).first().map(|v| v.to_vec()).unwrap_or_default();
+        check_response(&cx, &sent, &plan_msg, &resp, &backend_corr)?;
+        // observation only (the property does not ask for distinct ids): doc/configure.md says "each request gets a unique ULID"
+        if reused > 0 && seen_ids.contains(&backend_corr) {
+            rep.class("observed_same_correlation_id_for_two_requests_of_one_connection");
+        }
+        seen_ids.push(backend_corr.clone());
+        // ---- keep the connection?
+        let close = has_token(&sent.values("connection"), b"close") || has_token(&resp.values("connection"), b"close") || has_token(&plan_msg.values("connection"), b"close");
+        if close {
+            conn = None;
+        }
+    }
+    drop(conn);
+    let garbage = lab.shared.lock().unwrap().garbage.clone();
+    if !garbage.is_empty() {
+        fail!("C13/garbage-at-backend", "a backend received bytes that are not an HTTP/1.1 request: {:?}", garbage);
+    }
+
+    // ---- measurement
+    let mut any_managed = false;
+    let mut any_dup = false;
+    let mut any_trailer = false;
+    for r in &case.reqs {
+        let names: Vec<String> = r.headers.iter().map(|(n, _)| n.to_ascii_lowercase()).collect();
+        let managed = |n: &str| MANAGED_LC.contains(&n) || n == corr_lc;
+        any_managed |= names.iter().any(|n| managed(n));
+        any_dup |= names.iter().collect::<BTreeSet<_>>().len() != names.len();
+        any_trailer |= !r.trailers.is_empty();
+        let has = |n: &str| names.iter().any(|x| x == n);
+        rep.class_if(has("x-forwarded-for"), "client_x_forwarded_for");
+        rep.class_if(names.iter().filter(|x| *x == "x-forwarded-for").count() >= 2, "client_x_forwarded_for_2+_lines");
+        rep.class_if(has("forwarded"), "client_forwarded");
+        rep.class_if(has("x-real-ip"), "client_x_real_ip");
+        rep.class_if(has("x-real-ip") && cfg.elide, "client_x_real_ip_on_elide_listener");
+        rep.class_if(has("x-forwarded-proto") || has("x-forwarded-port"), "client_x_forwarded_proto_or_port");
+        rep.class_if(has("x-request-id"), "client_x_request_id");
+        rep.class_if(has(&corr_lc), "client_correlation_header");
+        rep.class_if(has("cookie"), "client_cookie");
+        rep.class_if(names.iter().filter(|x| *x == "cookie").count() >= 2, "cookie_2+_lines");
+        rep.class_if(r.headers.iter().any(|(n, v)| n.eq_ignore_ascii_case("cookie") && v.contains(&format!("{}=", cfg.sticky))), "sticky_cookie_sent");
+        rep.class_if(has("connection"), "client_connection_header");
+        rep.class_if(r.headers.iter().any(|(n, v)| n.eq_ignore_ascii_case("connection") && v.to_ascii_lowercase().contains("x-hop")) && (has("x-hop1") || has("x-hop2")), "connection_named_field_present");
+        rep.class_if(r.headers.iter().any(|(n, _)| { let l = n.to_ascii_lowercase(); managed(&l) && *n != l && !MANAGED.iter().any(|m| m == n) && n != cfg.corr && n != "Cookie" }), "managed_name_case_variant");
+        rep.class_if(r.headers.iter().any(|(_, v)| v.is_empty()), "empty_value");
+        rep.class_if(r.headers.iter().any(|(_, v)| v.len() >= 150), "long_value");
+        rep.class_if(r.trailers.iter().any(|(n, _)| managed(&n.to_ascii_lowercase())), "managed_name_in_trailer");
+        rep.class_if(r.cluster as usize == EDIT_CLUSTER, "frontend_edits");
+        rep.class_if(r.cluster as usize == EDIT_CLUSTER && (has("x-del-req") || has("x-del-both") || has("x-edit-req") || has("x-edit-both")), "frontend_edit_name_sent_by_client");
+        rep.class_if(CLUSTERS[r.cluster as usize % 3].3, "sticky_cluster");
+        rep.class_if(r.resp.headers.iter().any(|(n, _)| n.eq_ignore_ascii_case("set-cookie")), "response_set_cookie");
+        rep.class_if(r.resp.headers.iter().any(|(n, _)| n.eq_ignore_ascii_case(cfg.corr)), "response_correlation_name_from_backend");
+        let rn: Vec<String> = r.resp.headers.iter().map(|(n, _)| n.to_ascii_lowercase()).collect();
+        rep.class_if(rn.iter().collect::<BTreeSet<_>>().len() != rn.len(), "response_duplicate_names");
+        rep.class_if(r.split.is_some(), "request_written_in_two_pieces");
+    }
+    rep.class("h1->h1");
+    rep.class(format!("listener_{}", case.listener));
+    rep.class_if(cfg.elide, "elide_listener");
+    rep.class_if(cfg.send, "send_listener");
+    rep.class_if(cfg.corr != hdrlab::CORR_DEFAULT, "custom_correlation_name");
+    rep.class_if(matches!(case.src, Src::ProxyV4 { .. }), "proxy_v2_ipv4_source");
+    rep.class_if(matches!(case.src, Src::ProxyV6 { .. }), "proxy_v2_ipv6_source");
+    rep.class_if(any_dup, "duplicate_names");
+    rep.class_if(any_trailer, "trailers");
+    rep.class_if(any_managed, "managed_name_in_request");
+    rep.class_if(rejected > 0, "obs_text_rejected_400");
+    rep.class_if(reused > 0, "keep_alive_reuse");
+    rep.class_if(case.strict, "strict");
+    let uniq: BTreeSet<String> = rep.classes.drain(..).collect();
+    rep.classes = uniq.into_iter().collect();
+    rep.nontrivial = forwarded > 0 && (any_managed || any_dup || any_trailer);
+    rep.inner_evaluations = forwarded;
+    rep.excluded_known = excluded as u64;
+    Ok(rep)
+}
+
+// ------------------------------------------------------------------ runner
+
+const SUB: &str = "h1h1";
+const RULE: &str = "one scenario = 1..3 HTTP/1.1 requests (keep-alive when neither side said close) through one of five plain-HTTP listeners of a live worker (default; elide_x_real_ip+send_x_real_ip; send only; elide + custom sozu_id_header X-Edge-Trace + custom sticky_name; expect_proxy+elide+send with a hand-built PROXY-v2 header, IPv4 or IPv6 source incl. ::1, v4-mapped, 0.0.0.0, 255.255.255.255) from a generated 127.a.b.c source address, to one of three clusters by Host (plain; sticky_session; a frontend with request/response/both header edits, set and delete). Request head: 0..11 fields drawn from proxy-managed names (X-Forwarded-For/-Proto/-Port/-Host, Forwarded, X-Real-IP, X-Request-Id, Sozu-Id, X-Edge-Trace), Cookie lines with 1..4 crumbs (the listener's sticky name with the valid backend id or a bogus one, the other listener's sticky name, case variants of it), Connection with close/keep-alive/upgrade/named fields (X-Hop1/2, X-Real-IP, X-Forwarded-For) + those fields, Keep-Alive, TE, Upgrade, Proxy-Connection, end-to-end names incl. the frontend's edit names; values typical for the name or generic (empty, tokens, printable ASCII, 150..1800 bytes, obs-text, inner tab, comma lists, quoted commas); random case variants of names; up to 2 extra duplicates; methods GET/POST/PUT/DELETE/PATCH/OPTIONS, origin- and absolute-form targets; Content-Length or chunked bodies, chunked ones with 0..3 trailer fields of the same names; head optionally written in two pieces. Backend response: status 200/201/404/500/302/204/304, 0..8 fields (Set-Cookie incl. the sticky name, Connection, the correlation name, the frontend's edit names, duplicates, empty values), Content-Length or chunked. Oracle, byte-exact on both sides (own strict reader, values compared after OWS trimming, names case-insensitively): method, target and body equal; for every name outside the proxy-managed set the backend's value sequence equals the client's (hop-by-hop fields and fields named by Connection: intact or removed; Connection/Keep-Alive/Proxy-Connection/framing fields not judged); cookie crumbs equal minus crumbs named exactly like the sticky cookie, which must be absent; X-Forwarded-For elements = client's elements + the peer (socket source or PROXY source, compared as addresses); Forwarded elements = client's + one element whose for= is the peer ip[:port], proto http, by the listener (or PROXY destination); X-Real-IP = client's (none under elide) + the peer under send; X-Forwarded-Proto/-Port = client's or, without one, exactly http / the listener's (or PROXY destination) port; exactly one X-Request-Id (the client's or a ULID) and exactly one correlation header (a ULID); no trailer field named like protected metadata reaches the backend, other trailers intact; frontend edits as documented (delete removes, set appends or replaces). Response: status and body equal; per name the client's sequence equals the backend's, plus exactly one correlation header carrying the id the backend saw, plus `<sticky>=<backend id>; Path=/` exactly when the cluster is sticky and the request carried no valid sticky cookie (both admitted when valid and invalid ones were mixed), plus the frontend's response edits. A request with obs-text may instead be refused with 400 and nothing forwarded (kawa's strict parser); any other request must be forwarded. A failure is re-run twice on a fresh worker and reported only when it reproduces. Non-trivial: at least one request was forwarded and the scenario has a proxy-managed name, a duplicate name or a trailer; distinct by case hash.";
+
+fn child(args: &Args, total: u64) -> Stats {
+    lab::init_ports(args.shard.map(|s| s.0).unwrap_or(0));
+    let labcell: RefCell<Option<HdrLab>> = RefCell::new(None);
+    let flaky = std::cell::Cell::new(0u64);
+    let run_on = |fresh: bool, case: &Case| -> CheckResult {
+        let mut lab = match (fresh, labcell.borrow_mut().take()) {
+            (false, Some(l)) => l,
+            (_, old) => {
+                drop(old);
+                HdrLab::new("c13", LabConfig::default())
+            }
+        };
+        let r = scenario(&mut lab, case);
+        *labcell.borrow_mut() = if r.is_ok() { Some(lab) } else { None };
+        r
+    };
+    let check = |case: &Case| -> CheckResult {
+        let first = run_on(false, case);
+        let Err(f) = first else { return first };
+        for _ in 0..2 {
+            if let Err(f2) = run_on(true, case) {
+                return Err(if f2.signature == f.signature { f2 } else { f });
+            }
+        }
+        flaky.set(flaky.get() + 1);
+        let mut rep = CaseReport::default();
+        rep.class("flaky_unconfirmed");
+        Ok(rep)
+    };
+    let mut st = engine::run_lab_shard(args, "C13", SUB, total, strategy(), check, 60);
+    st.flaky_unconfirmed += flaky.get();
+    st
+}
+
+pub fn run(args: &Args) -> i32 {
+    if args.shard.is_some() {
+        let st = child(args, args.cases(60_000, 1_500_000));
+        return engine::shard::child_finish(args, &st);
+    }
+    let mut ev = Evidence::new(args, "exploration");
+    ev.rule(SUB, RULE);
+    ev.assume("scope: HTTP/1.1 client -> HTTP/1.1 backend over plain HTTP listeners only; HTTP/2 on either side, H2<->H1 conversion (connection-specific fields never crossing into HTTP/2), TLS listeners and therefore HSTS and X-Forwarded-Proto https are not exercised by this check");
+    ev.assume("direct peers are IPv4 loopback addresses 127.a.b.c (the lab listens on 127.0.0.1); IPv6 and arbitrary IPv4 peers are exercised through PROXY-v2 headers only");
+    ev.assume("a single client X-Request-Id is documented to be propagated (doc/configure.md, Request-ID propagation) and is admitted; hop-by-hop request/response fields may pass or be removed (the property is silent); Connection itself is not judged");
+    ev.assume("client Forwarded values are generated with balanced double quotes; cookie crumbs follow RFC 6265 name=value (no nameless crumbs, no trailing semicolons, no empty Cookie line); framing fields (Host, Content-Length, Transfer-Encoding, Expect) are written by the harness, one each; trailers and responses carry no obs-text");
+    ev.assume("one known shape is excluded by construction and counted in excluded_known (fields removed): trailer fields named like protected metadata (correlation name, X-Request-Id, X-Forwarded-For, Forwarded, X-Real-IP under elide); the committed strict reproducers under regressions/C13 play it");
+    for (class, frac) in [
+        ("client_x_forwarded_for", 0.15),
+        ("client_x_forwarded_for_2+_lines", 0.02),
+        ("client_forwarded", 0.15),
+        ("client_x_real_ip", 0.15),
+        ("client_x_real_ip_on_elide_listener", 0.08),
+        ("client_x_forwarded_proto_or_port", 0.15),
+        ("client_x_request_id", 0.08),
+        ("managed_name_case_variant", 0.15),
+        ("duplicate_names", 0.3),
+        ("trailers", 0.1),
+        ("managed_name_in_trailer", 0.03),
+        ("cookie_2+_lines", 0.05),
+        ("sticky_cookie_sent", 0.1),
+        ("sticky_cluster", 0.3),
+        ("frontend_edits", 0.3),
+        ("frontend_edit_name_sent_by_client", 0.05),
+        ("connection_named_field_present", 0.01),
+        ("proxy_v2_ipv4_source", 0.05),
+        ("proxy_v2_ipv6_source", 0.05),
+        ("custom_correlation_name", 0.1),
+        ("elide_listener", 0.3),
+        ("send_listener", 0.3),
+        ("response_set_cookie", 0.2),
+        ("response_duplicate_names", 0.2),
+        ("response_correlation_name_from_backend", 0.05),
+        ("keep_alive_reuse", 0.2),
+        ("empty_value", 0.2),
+        ("long_value", 0.05),
+    ] {
+        ev.floor(SUB, class, frac);
+    }
+    engine::shard::run_sharded(&mut ev, args, SUB, 16, Duration::from_secs(args.tier.pick(900, 5400)));
+    ev.finish()
 }
